@@ -253,6 +253,12 @@ def shard_include(shard):
         if m.verdict != ACCEPT:
             raise RuntimeError('machinery: include arrangement %r is %s (%s) with an accepted text in the slot' % (main, m.verdict, m.why))
 
+    # calls of the include function itself that are refused: reported like every other rejected text
+    if prefixes and list(prefixes[0]) == []:
+        for main in (b'include()', b'i = 7\ninclude ( )', b'sec {\ninclude()\n}', b'include("a.conf", "b.conf")', b'\n\ninclude("a.conf",\n"b.conf")\n',
+                     b'include("nope.conf")', b'sec { include("a.conf") include() }'):
+            files = {b'a.conf': b'i = 1\n', b'b.conf': b''}
+            buf.append((main, files, reftext.meaning(sch, flags, main, files=reftext.Files(dict(files)))))
     for prefix in prefixes:
         for words, m0 in e1_words(sch, flags, alpha, N, prefix):
             if m0.verdict == UNSPEC and m0.lex.status != 'OK':
